@@ -65,7 +65,9 @@ def bundled_tables():
 def plugin_header(events):
     """package names containing a capital letter (text the spec cannot look into): data for KF_C13_CapitalizedPackage"""
     caps = sorted({m["pkg"] for e in events for m in e["prog"]["msgs"] + e["prog"]["enums"] if any(c.isupper() for c in m["pkg"])})
-    return {"capitalized_packages": caps or ["<none>"]}
+    import builtins
+    return {"capitalized_packages": caps or ["<none>"],
+            "builtin_type_names": sorted(n for n in dir(builtins) if isinstance(getattr(builtins, n), type) and n.islower())}
 
 
 def run(ctx):
